@@ -125,6 +125,67 @@ def run_case(case: cases.SVCase, stats: Stats) -> None:
     run_builds(case, stats, BUILDS, ID)
 
 
+def go_strategy(tier: str) -> Any:
+    # shapes of recorded Go findings are not generated (C10 owns them): unused imports (D10), names of imported
+    # aliases' foreign elements (N3b), go -O casts to types of imported messages' nested/foreign enums (N8)
+    feat = S.Features(extensible=False, ext_arrays=False, bits_budget=500, big=False, max_files=2, prune_unused_imports=True, alias_foreign_enum=False)
+    return cases.sv_cases(feat, nrand=2)
+
+
+def run_go(case: cases.SVCase, stats: Stats) -> None:
+    from .. import goexec
+    from .c10 import shape_n8
+
+    if any(shape_n8(f) for f in case.unit.files):
+        stats.exclude("recorded finding N8 shape (go -O casts to a type name of an imported file)")
+        return
+    with gen.Compiled(case.unit, case.style) as cu:
+        try:
+            gdir = cu.render_all("go", tag="go_O", optimize=True)
+            sdir = cu.render_all("go", tag="go_std")
+        except Exception as e:
+            raise Violation(f"traditional schema refused/failed for go -O: {type(e).__name__}: {e}", signature="compile-go")
+        try:
+            gu = goexec.GoUnit(case.unit, gdir)
+            su = goexec.GoUnit(case.unit, sdir)
+        except goexec.GoUnsupported as e:
+            stats.inconclusive_("interpreter: " + str(e)[:80])
+            return
+        except (goexec.GoCompileError, goexec.GoSyntaxError) as e:
+            raise Violation(f"generated go -O output is rejected by the Go type checker: {e}", signature="go-compile")
+        digest = cases.unit_digest(cu.texts)
+        for lab in S.unit_labels(case.unit):
+            stats.count(lab)
+        for idx, m in enumerate(unit_messages(case.unit)):
+            if ref.has_empty_enum(m) or ref.nbits(m) > 4096:
+                continue
+            for l in extra_labels(m):
+                stats.count(l)
+            mlabs = set(S.message_labels(m)) | set(extra_labels(m))
+            nt = "straddle_byte" in mlabs and bool(mlabs & {"signed_nonstd", "width63", "storage_wider", "bool", "nested_value", "array"})
+            for vname, v in cases.vectors(case, idx, m):
+                want = ref.encode(m, v)
+                try:
+                    gb = gu.encode(m, v)
+                    back = gu.decode(m, want)
+                    sb = su.encode(m, v)
+                except goexec.GoUnsupported as e:
+                    stats.inconclusive_("interpreter: " + str(e)[:80])
+                    break
+                except goexec.GoPanic as e:
+                    raise Violation(f"go -O {m.name} panics for vector {vname}: {e}", {"value": v}, signature="go-panic")
+                stats.evaluations += 3
+                stats.target("go:O", 2)
+                if gb != want or gb != sb:
+                    raise Violation(f"go -O {m.name}.Encode() vector {vname}: got {gb.hex()}, standard mode {sb.hex()}, specified {want.hex()} (stream bits {gen.bit_diff(gb, want)[:16]})", {"value": v}, signature="go-O-encode")
+                if back != v:
+                    bad = [(lf.path, f"{lf.kind}{lf.bits}@{lf.offset}", ref.get_path(back, lf.path), ref.get_path(v, lf.path)) for lf in ref.leaves(m) if ref.get_path(back, lf.path) != ref.get_path(v, lf.path)][:5]
+                    raise Violation(f"go -O {m.name}.Decode() vector {vname}: wrong leaves {bad}", {"value": v, "bytes": want.hex()}, signature="go-O-decode")
+                if nt:
+                    stats.mark_nontrivial(digest, m.name, v, "go-O")
+
+
 PARTS = [
-    HypPart("c", strategy, run_case, {"quick": 192, "thorough": 3840}, describe=cases.describe),
+    HypPart("c", strategy, run_case, {"quick": 128, "thorough": 3840}, describe=cases.describe),
+    HypPart("go", go_strategy, run_go, {"quick": 112, "thorough": 4800}, describe=cases.describe),
 ]
